@@ -10,17 +10,22 @@ PROP = "C08"
 REL = "ak/color.py"
 FUNNEL = ("__init__", "make", "_append_chunk")
 EXPLANATION = (
-    "Who-may-write, path pairing (event language), def-use and an aliasing rule on CHText in ak/color.py. The arithmetic of "
-    "indexing / slicing / fixed_len / format is value-level and NOT decided; what is decided is the representation invariant "
-    "those operations, ==, len() and rendering rely on (no empty chunk, neighbours differ in colour, scrlen = sum of chunk "
-    "lengths). R08a: `.chunks` and `.scrlen` of any object are stored to or mutated in place only in CHText.__init__, "
+    "Who-may-write, path pairing (event language), def-use and aliasing rules on CHText in ak/color.py decide the representation "
+    "invariant that ==, len() and rendering rely on (no empty chunk, neighbours differ in colour, scrlen = sum of chunk "
+    "lengths); on top of it R08h decides the arithmetic of indexing / slicing / fixed_len / format padding by relational "
+    "abstract interpretation (sa/textint.py: values say which characters T[lo:hi] of the visible text a piece shows, as linear "
+    "expressions over the inputs and ghost chunk offsets A(i), L(i); linear constraints decided by Fourier-Motzkin; paths "
+    "partitioned at every test; the two loops get inductive invariants from a template family, Houdini-style); every abstract "
+    "path is compared with every feasible case of str's behaviour. R08a: `.chunks` and `.scrlen` of any object are stored to or mutated in place only in CHText.__init__, "
     "CHText.make and CHText._append_chunk (whole package); readers outside color.py copy. R08b: in _append_chunk the empty-text "
     "early return dominates every mutation; on every path the chunk list is mutated exactly once and scrlen grows exactly once "
     "by len(chunk.text) of the same chunk; the merge branch is taken exactly when the list is non-empty and the last chunk has "
     "the same type, and appends the new text after the old. R08c: make() stores the list returned by _merge_chunks and computes "
     "scrlen from that same list; _merge_chunks flushes the pending chunk. R08d: no loop iterates `other.<attr>` while its body "
     "(transitively) grows `self.<attr>` unless `other is not self` is known or a copy is iterated. R08e: every text returned by a "
-    "public operation is built by the constructors / make / another public operation, i.e. through the funnel of R08a."
+    "public operation is built by the constructors / make / another public operation, i.e. through the funnel of R08a. R08f: "
+    "non-in-place operations return fresh objects. R08g: a list handed to make() is not mutated afterwards. Parsing of the "
+    "format specification and fixed_len of negative lengths are NOT decided."
 )
 
 
@@ -182,6 +187,7 @@ def run(cx):
     cx.guard(_r08e, cx, repo, cht, chunk)
     cx.guard(_r08f, cx, repo, cht)
     cx.guard(make_ownership, cx, repo, "R08g")
+    cx.guard(_r08h, cx, repo, cht)
 
 
 def make_ownership(cx, repo, rule):
@@ -390,3 +396,128 @@ def _through_funnel(v, f, depth=0):
     if isinstance(v, ast.Subscript):
         return True, "delegates to slicing"
     return False, ""
+
+
+# ---------------------------------------------------------------------- R08h: index / slice / fixed_len / format arithmetic
+def _r08h(cx, repo, cht):
+    """Relational abstract interpretation (sa/textint.py) of CHText.__getitem__ (with _get_chunk_pos inlined), fixed_len and
+    the padding part of __format__ against the behaviour of str: which characters of the visible text T, in which order and
+    colour, the result shows.  Every abstract path is compared with every case of the specification that is feasible with it;
+    a path on which the result is not proved equal is reported with a sample of the inputs."""
+    from sa.textint import (TextInterp, State, Int, NONE, SELF, SliceV, Opaque, Const, Text, Unsupported, N, slice_spec,
+                            normalise_text, same_text, witness)
+    from sa.fm import Lin, lin, ge, gt, le, lt, eq
+    cx.rule("R08h", "index / slice / fixed_len / format padding show exactly the characters str would, in their colours")
+    methods = {f.name: f for f in cht.body if isinstance(f, FUNC)}
+    for nm in ("__getitem__", "_get_chunk_pos", "fixed_len", "__format__"):
+        cx.need(nm in methods, "R08h", cht, f"method {nm}")
+    it = TextInterp(methods)
+
+    def parts_of(v):
+        if isinstance(v, Text):
+            return list(v.parts)
+        return it._text_parts(v)
+
+    def judge(func, label, outs, spec_cases, names):
+        """spec_cases: [(description, [constraints], ('text', parts) | ('raise', name))]"""
+        n_pairs = 0
+        for desc, cons, want in spec_cases:
+            bad = None
+            covered = False
+            for o in outs:
+                s = o.st.assume(*cons)
+                if not it.feasible(s):
+                    continue
+                covered = True
+                n_pairs += 1
+                line = getattr(o.node, "lineno", func.lineno)
+                if o.how == "alarm":
+                    bad = f"line {line}: {o.value}"
+                elif want[0] == "raise":
+                    if not (o.how == "raise" and o.value == want[1]):
+                        bad = f"line {line}: {'returns ' + repr(o.value) if o.how == 'return' else 'raises ' + str(o.value) if o.how == 'raise' else o.how} where {want[1]} must be raised"
+                else:
+                    if o.how != "return":
+                        bad = f"line {line}: {o.how} {o.value if o.how == 'raise' else ''} where a text must be returned"
+                    else:
+                        got = parts_of(o.value)
+                        if got is None:
+                            bad = f"line {line}: returns {o.value!r}, not a text built from the receiver"
+                        else:
+                            if not same_text(it, got, want[1], s):
+                                bad = f"line {line}: shows {_show(got)} where str gives {_show(want[1])}"
+                if bad:
+                    bad += f"; e.g. {witness(it, s, names)}"
+                    break
+            cx.ob("R08h", func, bad is None, f"{label}, {desc}: as str" if bad is None else f"{label}, {desc}: {bad}", stmt=f"{label} [{desc}]")
+        return n_pairs
+
+    def _show(parts):
+        return "[" + ", ".join(f"T[{p[1]}:{p[2]}]" if p[0] == "cov" else f"{p[0]} x ({p[1]})" for p in parts) + "]" if parts else "''"
+
+    total = 0
+    from sa.textint import K as K_
+
+    def run(body, env, facts=()):
+        # a text is either empty (no chunks, no characters) or has at least one chunk and one character
+        outs = []
+        for shape in ([eq(N, 0), eq(K_, 0)], [ge(N, 1), ge(K_, 1)]):
+            outs.extend(it.run(body, State(env, list(facts) + shape)))
+        return outs
+    try:
+        gi = methods["__getitem__"]
+        ix = params(gi)[1]
+        # ---- integer index
+        i = Lin.var("i")
+        outs = run(gi.body, {ix: Int(i)})
+        total += judge(gi, "text[i]", outs, [
+            ("0 <= i < n", [ge(i, 0), lt(i, N)], ("text", [("cov", i, i + 1)])),
+            ("-n <= i < 0", [lt(i, 0), ge(i + N, 0)], ("text", [("cov", i + N, i + N + 1)])),
+            ("i >= n", [ge(i, N)], ("raise", "IndexError")),
+            ("i < -n", [lt(i + N, 0)], ("raise", "IndexError")),
+        ], {"i", "n", "k"})
+        # ---- slices
+        a, b = Lin.var("a"), Lin.var("b")
+        for la, va in (("", NONE), ("a", Int(a))):
+            for lb, vb in (("", NONE), ("b", Int(b))):
+                outs = run(gi.body, {ix: SliceV(va, vb, NONE)})
+                cases = []
+                for (lo, hi), s in slice_spec(it, va, vb, State({}, [])):
+                    cons = list(s.facts)
+                    desc = " and ".join(str(c) for c in cons[:4]).replace(" <= 0", "<=0") or "all"
+                    cases.append((desc, cons, ("text", [("cov", lo, hi)] if lo is not None else [])))
+                total += judge(gi, f"text[{la}:{lb}]", outs, cases, {"a", "b", "n", "k"})
+        outs = run(gi.body, {ix: SliceV(NONE, NONE, Int(Lin.var("step")))})
+        total += judge(gi, "text[::step]", outs, [("any step", [], ("raise", "ValueError"))], {"n"})
+        # ---- fixed_len
+        fl = methods["fixed_len"]
+        d = Lin.var("d")
+        outs = run(fl.body, {params(fl)[1]: Int(d)}, [ge(d, 0)])
+        total += judge(fl, "fixed_len(d)", outs, [
+            ("0 <= d <= n", [ge(d, 0), le(d, N)], ("text", [("cov", lin(0), d)])),
+            ("d > n", [gt(d, N)], ("text", [("cov", lin(0), N), ("pad", d - N)])),
+        ], {"d", "n", "k"})
+        # ---- format: padding once fill / align / width are known
+        fm_ = methods["__format__"]
+        start = next((k for k, s in enumerate(fm_.body) if isinstance(s, ast.Assign) and is_name(s.targets[0], "filler_width")), None)
+        cx.need(start is not None, "R08h", fm_, "padding part of __format__ (assignment of filler_width)")
+        used = {x.id for s in fm_.body[start:] for x in ast.walk(s) if isinstance(x, ast.Name) and isinstance(x.ctx, ast.Load)} - {"self", "str", "max", "min"}
+        cx.need(used <= {"width", "align_char", "filler_ch", "filler_width", "prefix_width", "suffix_width"}, "R08h", fm_, f"padding part reads {sorted(used)}")
+        w = Lin.var("w")
+        for ch in "<>^":
+            outs = run(fm_.body[start:], {"width": Int(w), "align_char": Const(ch), "filler_ch": Opaque("F")})
+            t = w - N
+            q, _ = it.floordiv(t, 2, State())
+            body = ("cov", lin(0), N)
+            want = {"<": [body, ("fill:F", t)], ">": [("fill:F", t), body], "^": [("fill:F", q.l), body, ("fill:F", t - q.l)]}[ch]
+            total += judge(fm_, f"format(text, 'F{ch}w')", outs, [
+                ("w <= n", [le(w, N)], ("text", [body])),
+                ("w > n", [gt(w, N), le(q.l * 2, t), le(t, q.l * 2 + 1)], ("text", want)),
+            ], {"w", "n"})
+    except Unsupported as u:
+        raise AnalysisError("R08h", f"{REL}::CHText", f"arithmetic not decided: {u}")
+    cx.counts["R08h:abstract path x specification case pairs"] = total
+    cx.counts["R08h:linear-arithmetic queries"] = it.stats["fm_queries"]
+    cx.counts["R08h:loops / invariant candidates / invariants kept"] = [it.stats["loops"], it.stats["candidates"], it.stats["invariants"]]
+    cx.counts["R08h:loop invariants (equalities)"] = {str(k): v for k, v in it.invariants}
+    cx.at_least("R08h", "path x case pairs compared", total, 30)
